@@ -64,6 +64,13 @@ func runRelay(c *Case, r *Run, script []relayEv, gapMode int, window int, chunk 
 	// chunking of what the relay reads, bounded window towards the sinks
 	a2.Out().SetPolicy(pol())
 	b2.Out().SetPolicy(pol())
+	if window == 4096 || chunk == 2 {
+		// the read that delivers a side's last bytes also reports its end
+		// (n > 0 together with EOF / reset), as obfs4's Read does by design
+		a2.Out().SetErrWithData(true)
+		b2.Out().SetErrWithData(true)
+		r.Count("relay_end_reported_with_last_data", 1)
+	}
 	if window > 0 {
 		a1.Out().SetWindow(window)
 		b1.Out().SetWindow(window)
@@ -148,7 +155,16 @@ func runRelay(c *Case, r *Run, script []relayEv, gapMode int, window int, chunk 
 			}
 			synctest.Wait() // earlier bytes of this side are on the wire before its EOF
 			s.ended = "eof"
+			// a last burst immediately followed by the EOF
+			tail := rng.IntN(3000)
+			s.app.Out().Pause(true)
+			if tail > 0 {
+				s.q <- s.st.Bytes(s.written, tail)
+				s.written += int64(tail)
+				synctest.Wait()
+			}
 			s.app.Out().CloseWrite()
+			s.app.Out().Pause(false)
 			if !anyEnd {
 				anyEnd, firstEnd, otherHealthy = true, s.name+"-eof", o.ended == "" && !o.werr
 			}
@@ -158,8 +174,15 @@ func runRelay(c *Case, r *Run, script []relayEv, gapMode int, window int, chunk 
 			}
 			synctest.Wait()
 			s.ended = "rst"
-			s.cutAt = s.app.Out().Delivered()
+			// a last burst that reaches the relay and is then followed by the reset
+			tail := 1 + rng.IntN(3000)
+			s.app.Out().Pause(true)
+			s.q <- s.st.Bytes(s.written, tail)
+			s.written += int64(tail)
+			synctest.Wait()
+			s.cutAt = s.written
 			s.app.Out().SetCut(s.cutAt, CutRST)
+			s.app.Out().Pause(false)
 			if !anyEnd {
 				anyEnd, firstEnd, otherHealthy = true, s.name+"-rst", o.ended == "" && !o.werr
 			}
